@@ -13,7 +13,11 @@ External state: `env (3*i)` is the state of node i's path: 0 = missing, x+1 = pr
 Values (`BuildValue` kinds, payload * 8 + tag):
   0 Invalid · 1 MissingInput · 8x+2 ExistingInput(x) · 3 VirtualInput · 4 FailedInput · 8h+5 SuccessfulCommand(h)
   6 Failed/PropagatedFailure/CancelledCommand · 7 Target
-  A successful command's value `h` stands for the list of its output records: output j has record/content `mix h j`.
+  A successful command's value stands for the list of its outputs' stat records, like the real BuildValue: its payload is
+  `h % MOD + MOD * codeOutputs outputs` — `h` (what the command computed from its inputs) determines the records (the output
+  at position j has record/content `mix h j`, and `mix` only looks at the payload modulo MOD) and the output-node LIST is
+  recorded next to it, so a command whose output list was edited completes with a different value, and a produced node finds
+  its own record by looking for its node in the recorded list (`recordedPos`), not in the description.
 Not modelled: discovered dependencies (C11), directory-tree nodes (C12), command-timestamp and mutated nodes,
 allow-missing-inputs, stale-file removal (C14).  CORE LEAN ONLY.
 -/
@@ -70,6 +74,25 @@ def fileValue (x : Nat) : Val := if x = 0 then vMissingInput else vExisting (x -
 /-- the deterministic mixing function the generated commands compute (also in /bin/sh arithmetic) -/
 def mix (h v : Nat) : Nat := (h * 131 + v + 7) % 1000000007
 
+def MOD : Nat := 1000000007
+
+/-- an injective code of an output-node list (binary: `a` zeros and a one per element, first element lowest) -/
+def codeOutputs : List Nat → Nat
+  | [] => 0
+  | a :: l => 2 ^ a * (2 * codeOutputs l + 1)
+
+/-- scan the bits of a `codeOutputs` code (fuel, rest of the code, zeros seen since the last one): the position of the
+first element equal to `i`; the length of the coded list if there is none (as `List.idxOf`) -/
+def posScan (i : Nat) : Nat → Nat → Nat → Nat
+  | 0, _, _ => 0
+  | f + 1, n, z =>
+    if n = 0 then 0
+    else if n % 2 = 0 then posScan i f (n / 2) (z + 1)
+    else if z = i then 0 else 1 + posScan i f (n / 2) 0
+
+/-- the position of node `i` in the output list recorded in the payload `p` of a successful command's value -/
+def recordedPos (p i : Nat) : Nat := posScan i (p / MOD) (p / MOD) 0
+
 /-! ### the description -/
 def Desc.isVirtual (d : Desc) (i : Nat) : Bool := d.virt.getD i false
 def Desc.cmd? (d : Desc) (c : Nat) : Option Cmd := d.cmds[c]?
@@ -119,26 +142,33 @@ def foldInputs (c : Cmd) (get : Nat → Option Val) : List Nat → Nat → Optio
       else if isExisting v ∧ c.mask.getD j true then foldInputs c get js (mix h (v / 8))
       else foldInputs c get js h
 
+/-- the value of a successful execution of `c` that computed `h`: the records of its outputs (`h`) together with the
+list of output nodes they belong to -/
+def successValue (c : Cmd) (h : Nat) : Val := vSuccess (h % MOD + MOD * codeOutputs c.outputs)
+
 /-- the value a command task completes with, given the values of its inputs by position -/
 def cmdOut (c : Cmd) (get : Nat → Option Val) : Val :=
   match c.tool with
-  | .symlink => vSuccess c.salt
+  | .symlink => successValue c c.salt
   | .shell =>
     match foldInputs c get (List.range c.inputs.length) c.salt with
-    | some h => vSuccess h
+    | some h => successValue c h
     | none => vFailedCmd
   | _ =>
     match foldInputs c get (List.range c.inputs.length) 0 with
-    | some _ => vSuccess 0
+    | some _ => successValue c 0
     | none => vFailedCmd
 
-/-- `getResultForOutput` (ExternalCommand, with the PhonyCommand and SymlinkCommand overrides) -/
+/-- `getResultForOutput` (ExternalCommand, with the PhonyCommand and SymlinkCommand overrides).  The record of output
+node `i` is looked up in the VALUE (the position of `i` in the output list the value records — for a value the
+command produced under its current definition this is `c.outputs.idxOf i`, `recordedPos_successValue`), so for a
+non-virtual node the function does not depend on the producer's definition at all. -/
 def resultForOutput (d : Desc) (c : Cmd) (i : Nat) (cv : Val) : Val :=
   if c.tool = .phony ∧ d.isVirtual i then vVirtual
   else if cv = vFailedCmd then vFailedInput
   else if isSuccess cv then
     if d.isVirtual i ∧ c.tool ≠ .symlink then vVirtual
-    else vExisting (mix (cv / 8) (c.outputs.idxOf i))
+    else vExisting (mix (cv / 8) (recordedPos (cv / 8) i))
   else vInvalid
 
 def outOf (d : Desc) (k : Key) (env : Env) (recv : Recv) : Val :=
@@ -234,7 +264,7 @@ def cleanEval (d : Desc) (env : Env) : Nat → Key → Option Val
       | _ => some vFailedInput
     | .commandTask =>
       let c := d.cmd (k / 3)
-      if c.tool = .symlink then some (vSuccess c.salt)
+      if c.tool = .symlink then some (successValue c c.salt)
       else
         let get := fun j => match c.inputs[j]? with
           | some n => cleanEval d env f (nodeKey n)
